@@ -126,6 +126,18 @@ EXPORT_H = """#pragma once
 """
 
 
+def export_include():
+    """Directory holding the generated mustache_export.h (what cmake's generate_export_header makes)."""
+    inc = os.path.join(CACHE, "include")
+    os.makedirs(inc, exist_ok=True)
+    p = os.path.join(inc, "mustache_export.h")
+    if not os.path.exists(p):
+        with open(p + ".%d" % os.getpid(), "w") as f:
+            f.write(EXPORT_H)
+        os.rename(p + ".%d" % os.getpid(), p)
+    return inc
+
+
 def _prune_cache(keep):
     try:
         ents = [os.path.join(CACHE, d) for d in os.listdir(CACHE)
@@ -181,7 +193,7 @@ def build_lib(variant="asan", extra_defs=()):
             raise BuildError("ar failed", err)
         os.rename(lib + ".tmp", lib)
         log("[build] lib %s/%s in %.1fs" % (h, tag, time.time() - t0))
-        _prune_cache(3)
+        _prune_cache(10)
     return lib, inc
 
 
@@ -378,6 +390,7 @@ class Ctx:
         self.assumptions = []
         self.proof = None
         self.level = "proof"
+        self.prep_error = None
         self._nrep = 0
         self.open_known = {k["key"]: k for k in known_findings(prop) if k["state"] == "open"}
 
